@@ -538,6 +538,23 @@ func bitsCase(r *vh.Rng, rep *vh.Report, cf *vh.CaseFile, id, bl int, exact bool
 	if len(out) != n || v.BitLen() > bl || (exact && bl > 0 && v.BitLen() != bl) {
 		rep.Fail("random.Bits-range", "random.Bits result out of the requested range", desc)
 	}
+	// no bias: the result must be the stream bytes themselves, only masked to bitlen bits
+	// (and with the top bit forced when exact) - any other map from stream to value is not uniform
+	if n > 0 && len(out) == n {
+		want := append([]byte{}, st[:n]...)
+		if hb := uint(bl) & 7; hb != 0 {
+			want[0] &= byte(0xff) >> (8 - hb)
+			if exact {
+				want[0] |= 1 << (hb - 1)
+			}
+		} else if exact {
+			want[0] |= 0x80
+		}
+		if !bytes.Equal(want, out) {
+			desc["want"] = vh.Hex(want)
+			rep.Fail("random.Bits-not-uniform", "random.Bits does not return the masked stream bytes (biased or stream-independent result)", desc)
+		}
+	}
 }
 
 func intCase(r *vh.Rng, rep *vh.Report, cf *vh.CaseFile, id, c int) {
@@ -680,6 +697,28 @@ func rsCase(r *vh.Rng, rep *vh.Report, cf *vh.CaseFile, id int) {
 		random.New(rs2...).XORKeyStream(dst2, make([]byte, l))
 		if !bytes.Equal(dst, dst2) {
 			rep.Fail("random.New-determinism", "same consumed bytes, different output", desc)
+		}
+		// depends on every reader: changing one consumed byte of any reader (also a short one) changes the output
+		if l >= 16 {
+			for ri, d := range rd {
+				if len(d) == 0 {
+					continue
+				}
+				var rs3 []io.Reader
+				for rj, e := range rd {
+					c := append([]byte{}, e...)
+					if rj == ri {
+						c[r.Intn(min(len(c), 32))] ^= 0x40
+					}
+					rs3 = append(rs3, &limReader{data: c})
+				}
+				dst3 := make([]byte, l)
+				random.New(rs3...).XORKeyStream(dst3, make([]byte, l))
+				if bytes.Equal(dst, dst3) {
+					desc["reader_changed"] = ri
+					rep.Fail("random.New-ignores-reader", "output does not depend on the bytes consumed from one of the readers", desc)
+				}
+			}
 		}
 	}
 }
